@@ -284,6 +284,8 @@ func (d *vfDict) matches(doc *vfDoc, term []byte) bool {
 		return bytes.Equal(doc.id, term)
 	case "p":
 		return len(term) == 1 && term[0] == doc.payload
+	case "bit": // term k matches documents whose payload has bit k set
+		return len(term) == 1 && term[0] < 8 && doc.payload&(1<<term[0]) != 0
 	}
 	return false
 }
@@ -303,25 +305,54 @@ func (d *vfDict) Iterator(a segment.Automaton, start, end []byte) segment.Dictio
 	return nil
 }
 
-type vfPostingsList struct{ nums []uint64 }
+// vfPostingsList is the postings of one term in one model segment. Like ice it
+// keeps its own bitmap of all postings; an iterator's "actual" bitmap is that
+// very bitmap when nothing is excluded and a fresh (postings AND NOT except)
+// otherwise. A list with a single posting may be "1-hit" encoded (vfOneHit).
+type vfPostingsList struct {
+	nums   []uint64        // live postings (after except)
+	all    *roaring.Bitmap // the list's own bitmap: every posting, immutable
+	except *roaring.Bitmap
+}
+
+var vfOneHit bool         // single-posting lists use the 1-hit encoding
+var vfAllLists []*vfPostingsList // every list handed out (to check immutability)
 
 func (d *vfDict) PostingsList(term []byte, except *roaring.Bitmap, prealloc segment.PostingsList) (segment.PostingsList, error) {
-	pl := &vfPostingsList{}
+	pl := &vfPostingsList{all: roaring.NewBitmap(), except: except}
 	for i := range d.s.docs {
+		if !d.matches(&d.s.docs[i], term) {
+			continue
+		}
+		pl.all.Add(uint32(i))
 		if except != nil && except.Contains(uint32(i)) {
 			continue
 		}
-		if d.matches(&d.s.docs[i], term) {
-			pl.nums = append(pl.nums, uint64(i))
-		}
+		pl.nums = append(pl.nums, uint64(i))
 	}
+	vfAllLists = append(vfAllLists, pl)
 	return pl, nil
 }
 
 func (p *vfPostingsList) Size() int     { return 8 * len(p.nums) }
 func (p *vfPostingsList) Count() uint64 { return uint64(len(p.nums)) }
 func (p *vfPostingsList) Iterator(includeFreq, includeNorm, includeLocations bool, prealloc segment.PostingsIterator) (segment.PostingsIterator, error) {
-	return &vfPostingsIter{nums: p.nums}, nil
+	it := &vfPostingsIter{nums: p.nums}
+	if vfOneHit && p.all.GetCardinality() == 1 {
+		if len(p.nums) == 1 {
+			it.oneHit = true
+		}
+		return it, nil
+	}
+	if uint64(len(p.nums)) == p.all.GetCardinality() {
+		it.actual = p.all // nothing excluded: the list's own bitmap
+	} else {
+		it.actual = roaring.NewBitmap()
+		for _, n := range p.nums {
+			it.actual.Add(uint32(n))
+		}
+	}
+	return it, nil
 }
 
 type vfPosting struct{ num uint64 }
@@ -337,6 +368,8 @@ type vfPostingsIter struct {
 	nums   []uint64
 	pos    int
 	closed int
+	actual *roaring.Bitmap
+	oneHit bool
 }
 
 func (it *vfPostingsIter) Next() (segment.Posting, error) {
@@ -358,6 +391,23 @@ func (it *vfPostingsIter) Size() int     { return 8 * len(it.nums) }
 func (it *vfPostingsIter) Empty() bool   { return len(it.nums) == 0 }
 func (it *vfPostingsIter) Count() uint64 { return uint64(len(it.nums)) }
 func (it *vfPostingsIter) Close() error  { it.closed++; return nil }
+
+// segment.OptimizablePostingsIterator
+func (it *vfPostingsIter) ActualBitmap() *roaring.Bitmap { return it.actual }
+func (it *vfPostingsIter) DocNum1Hit() (uint64, bool) {
+	if it.oneHit {
+		return it.nums[0], true
+	}
+	return 0, false
+}
+func (it *vfPostingsIter) ReplaceActual(bm *roaring.Bitmap) {
+	it.actual = bm
+	it.nums = nil
+	for _, n := range bm.ToArray() {
+		it.nums = append(it.nums, uint64(n))
+	}
+	it.pos = 0
+}
 
 // ---- model plugin ---------------------------------------------------------------------
 
